@@ -70,14 +70,19 @@ Definition validate_payload (payload : json) (sc : schema) : option store_error 
   end.
 
 (** ---- time normalisation ---- *)
+Definition in_i64 (z : Z) : bool := (i64_lo <=? z)%Z && (z <=? i64_hi)%Z.
+
 (** [TimeParser::normalize_json_value]: integers through the digit-band heuristic, floats
-    floored with a saturating cast, strings through the parser ([str::trim] is Unicode-aware;
+    floored with a saturating cast (after a range check when the regenerated
+    [time_float_range_checked] says the source has one), strings through the parser ([str::trim] is Unicode-aware;
     Model/Time.v trims ASCII white space, so the Unicode trim is applied first). *)
 Definition time_of_value (v : json) : option Z :=
   match v with
   | JNum (PosInt n) => normalize_integer_epoch (Z.of_N n)
   | JNum (NegInt z) => normalize_integer_epoch z
-  | JNum (Float b) => Some (sat_i64 (f64_floor b))
+  | JNum (Float b) =>
+      if time_float_range_checked && negb (in_i64 (f64_floor b)) then None
+      else Some (sat_i64 (f64_floor b))
   | JStr s => parse_str_to_epoch_seconds (utrim s)
   | _ => None
   end.
@@ -227,8 +232,6 @@ Definition step_store_text (st : state) (t : store_text) : state :=
 
 (** ---- decidable descriptions of the inputs on which the code departs from the
     property statement (the known-finding classes) ---- *)
-Definition in_i64 (z : Z) : bool := (i64_lo <=? z)%Z && (z <=? i64_hi)%Z.
-
 (** a float in a time-typed slot whose floor is not a representable second count *)
 Definition float_time_oor (sc : schema) (kv : bytes * json) : bool :=
   match snd kv with
